@@ -24,10 +24,17 @@ byte gb = 'A';
 byte gb2 = 'z';
 const int[] GA = [10, 20, 30];
 int[] MA = [1, 2, 3];
+int[] PA = [40, 50, 60];
 bool[] MB = [false, true, false];
 byte[] MY = ['p', 'q', 'r'];
 const string[] SA = ["zero", "one!"];
+string gs = "global";
+string gs2 = "";
+string[] MS = ["m0", "m1"];
 
+string fs(int x) { write('F'); if (x > 0) { return "pos"; } return SA[0]; }
+empty hs(string x) { write(x.length); write(x); }
+empty hcb(const byte[] x) { write(x.length); write(x); }
 int f(int x) { g += 1; write('f'); write(x); write(' '); return x * 2 + g; }
 bool p(int x) { write('p'); g += 2; return x > 1; }
 byte q(byte x) { write('q'); return x; }
@@ -42,7 +49,10 @@ bool c = a > 0;
 int[] arr = [a, 7, 9];
 string s = "hey";
 int v = 1;
+string[] sl = ["l0", "loc1"];
 """
+E_PARAMS = 'int a, byte b, int[] pa, const byte[] pcb, string ps, const string[] psa'
+E_ARGS = 'a, b, PA, "pcb" is byte[], "param", SA'
 
 
 def _leaves(reduced=False):
@@ -53,8 +63,8 @@ def _leaves(reduced=False):
             BOOL: ['c', 'p(a)'],
         }
     return {
-        INT: ['a', 'g', 'K', '3', 'f(a)', 'arr[1]', 'GA[2]', 'MA[0]', 'arr.length', 's.length'],
-        BYTE: ['b', 's[1]', 'gb', "'c'", 'q(b)', 'MY[1]', 'setb(b)', 'SA[1][s[1] - 100]', 'SA[0][(MB[1] is int) + 1]', 'SA[1][[2, 1][1]]'],
+        INT: ['a', 'g', 'K', '3', 'f(a)', 'arr[1]', 'GA[2]', 'MA[0]', 'arr.length', 's.length', 'pa[1]', 'ps.length'],
+        BYTE: ['b', 's[1]', 'gb', "'c'", 'q(b)', 'MY[1]', 'setb(b)', 'SA[1][s[1] - 100]', 'SA[0][(MB[1] is int) + 1]', 'SA[1][[2, 1][1]]', 'pcb[1]', 'ps[2]'],
         BOOL: ['c', 'true', 'gt', 'p(a)', 'MB[1]', '(setb(b) > 9)'],
     }
 
@@ -197,7 +207,22 @@ POSITIONS = {
         'writeln({e} + 1);',
     ],
 }
-RET_POS = {INT: 'int', BOOL: 'bool', BYTE: 'byte'}
+POSITIONS[STRING] = [
+    'write({e}); writeln();',
+    'string w = {e}; write(w); writeln(w.length);',
+    'gs2 = {e}; write(gs2); write(gs2.length);',
+    'MS[1] = {e}; write(MS[0]); write(MS[1]);',
+    'string[] t = [{e}, "x"]; write(t[0]); write(t[1]); write(t[0].length);',
+    'writeln(({e}).length);',
+    'write(({e})[1]); write(({e})[({e}).length - 1]);',
+    'write(({e}) is byte[]); const byte[] vw = ({e}) is byte[]; write(vw.length); write(vw[0]);',
+    'hs({e});',
+    'hcb({e});',
+    'writeln(({e}) is bool);',
+    "if (({e}).length > 3) {{ write('L'); }} else {{ write('S'); }}",
+]
+STRING_LEAVES = ['s', 'gs', 'SA[1]', 'MS[0]', 'fs(a)', '"lit"', 'ps', 'psa[1]', 'SA[(c is int)]', 'sl[1]']
+RET_POS = {INT: 'int', BOOL: 'bool', BYTE: 'byte', STRING: 'string'}
 
 E_ARGVS = [['0', '1'], ['7', '200'], ['-3', '255']]
 E_BATCH = 20
@@ -210,6 +235,7 @@ def family_E(tier):
         for e in pool[t]:
             for pi in range(len(POSITIONS[t]) + 1):
                 cases.append((t, e, pi))
+    scases = [(STRING, e, pi) for e in STRING_LEAVES for pi in range(len(POSITIONS[STRING]) + 1)]
     if tier == 'quick':
         # quick: every expression in 3 positions chosen round-robin so that every position is hit equally often
         sel = []
@@ -219,6 +245,7 @@ def family_E(tier):
             if (pi - ei) % npos in (0, npos // 3, 2 * npos // 3):
                 sel.append((t, e, pi))
         cases = sel
+    cases += scases
     batches = []
     for bi in range(0, len(cases), E_BATCH):
         batches.append(('E', cases[bi:bi + E_BATCH]))
@@ -233,13 +260,13 @@ def build_E(chunk):
         pos = POSITIONS[t]
         if pi < len(pos):
             body = LOCALS + pos[pi].format(e=e)
-            funcs.append(f'empty c{k}(int a, byte b) {{ {body} }}')
-            calls.append(f'write("#{k}:"); c{k}(a, b); writeln();')
+            funcs.append(f'empty c{k}({E_PARAMS}) {{ {body} }}')
+            calls.append(f'write("#{k}:"); c{k}({E_ARGS}); writeln();')
         else:
             body = LOCALS + f'return {e};'
-            funcs.append(f'{RET_POS[t]} c{k}(int a, byte b) {{ {body} }}')
+            funcs.append(f'{RET_POS[t]} c{k}({E_PARAMS}) {{ {body} }}')
             conv = ' is int' if t == BYTE else ''
-            calls.append(f'write("#{k}:"); writeln(c{k}(a, b){conv});')
+            calls.append(f'write("#{k}:"); writeln(c{k}({E_ARGS}){conv});')
     src = E_PRELUDE + '\n'.join(funcs) + '\nempty @is_you(int a, byte b) {\n' + '\n'.join(calls) + '\n}\n'
     return src
 
